@@ -15,6 +15,7 @@ import os, sys, json, inspect
 from common import *
 import c19_lib as L
 import c19_designs as DS
+import c19_behav as BH
 
 OBLIGATIONS = [
     'C19.coh_clear', 'C19.getWireNames_sim', 'C19.emitModule_sim', 'C19.getVerilogI_sim', 'C19.hierI_sim',
@@ -24,6 +25,12 @@ OBLIGATIONS = [
     'C19.shared_list_second_call_differs', 'C19.step_spec', 'C19.run_spec', 'C19.gen_state_indep', 'C19.repeat_same_text',
     'C19.interleave_same_text', 'C19.sim_no_effect', 'C19.hier_members', 'C19.submodule_context_free',
     'C19.submodule_context_free_direct',
+    # the exact, ordered, de-duplicated pre-order list of a hierarchy request
+    'C19.emitModule_fin', 'C19.hier_exact', 'C19.hierSpec_eq_walk', 'C19.descendants_of_ok', 'C19.hier_members_full',
+    'C19.hier_members_exact', 'C19.public_getHier_full', 'C19.dedupWalk_sublist',
+    # the transpiler and the live object
+    'C19.extractInit_frame', 'C19.transpile_live_frame', 'C19.transpile_sim_indep_partial', 'C19.transpile_sim_counterexample',
+    'C19.withLive_sim_indep', 'C19.sim_history_indep',
 ]
 
 # proposals for /verif/known_findings.json (the integrator merges them); applied locally until they are listed there
@@ -908,12 +915,114 @@ def static_scan(res):
     res.hist('static_scan', 'ast_nodes', n)
 
 
-def class_families(res, rng, tier):
+# every way the transpiler touches the live object on the unchanged tree: (class, function, expression).  Emit/Live.lean models
+# exactly these: the source text (getMethodASTInspectingLiveObject), the port lists and clock-driver name (fixed at construction),
+# hasattr(obj, 'initial') (a method), and ONE read of a simulation-writable attribute: getattr(self.obj, <constructor parameter>).
+LIVE_READS = {
+    ('Python2VerilogTranspiler', '__init__', 'self.obj = …'),
+    ('Python2VerilogTranspiler', 'transpileCombinational', 'ExtractInitializers(self.obj)'),
+    ('Python2VerilogTranspiler', 'transpileCombinational', 'self.obj.outPorts'),
+    ('Python2VerilogTranspiler', 'getMethodAST', 'getMethodASTInspectingLiveObject(self.obj, method_name)'),
+    ('Python2VerilogTranspiler', 'transpileSequential', 'ExtractInitializers(self.obj)'),
+    ('Python2VerilogTranspiler', 'transpileSequential', 'self.obj.outPorts'),
+    ('Python2VerilogTranspiler', 'transpileSequential', "hasattr(self.obj, 'initial')"),
+    ('Python2VerilogTranspiler', 'transpileSequential', 'getObjectClockDriver(self.obj)'),
+    ('Python2VerilogTranspiler', 'getExtraDeclarations', 'self.obj.inPorts'),
+    ('Python2VerilogTranspiler', 'getExtraDeclarations', 'self.obj.outPorts'),
+    ('Python2VerilogTranspiler', 'toVerilog', "hasattr(node, 'toVerilog')"),
+    ('Python2VerilogTranspiler', 'toVerilog', "getattr(node, 'toVerilog')"),
+    ('ExtractInitializers', '__init__', 'self.obj = …'),
+    ('ExtractInitializers', 'visit_Assign', 'getattr(self.obj, node.value.id)'),
+    # /repo 19c507c: a flag of the transpiler's own AST node (VerilogWire.final), not a read of the live circuit object
+    ('ReplaceWiresAndVariables', 'visit_VerilogWire', "getattr(node, 'final', False)"),
+}
+
+
+def static_scan_live(res):
+    """the transpiler's reads of the live object are the ones Emit/Live.lean models (a NEW read — another getattr/hasattr/vars, another
+    use of self.obj, the object handed to another visitor — is a broken tie: the failing-input search is the behavioural-class family)"""
+    import ast
+    rel = 'py4hw/transpilation/python2verilog_transpilation.py'
+    try:
+        tree = ast.parse(open(os.path.join(REPO, rel)).read())
+    except SyntaxError:
+        return          # reported by static_scan
+    found = set()
+    for cl in [n for n in tree.body if isinstance(n, ast.ClassDef)]:
+        for fn in [n for n in cl.body if isinstance(n, ast.FunctionDef)]:
+            parent = {}
+            for nd in ast.walk(fn):
+                for ch in ast.iter_child_nodes(nd):
+                    parent[ch] = nd
+            for nd in ast.walk(fn):
+                if isinstance(nd, ast.Call) and isinstance(nd.func, ast.Name) and nd.func.id in ('getattr', 'hasattr', 'vars', 'dir', 'setattr', 'delattr'):
+                    found.add((cl.name, fn.name, ast.unparse(nd)))
+                if isinstance(nd, ast.Attribute) and nd.attr == '__dict__':
+                    found.add((cl.name, fn.name, ast.unparse(nd)))
+                if isinstance(nd, ast.Attribute) and nd.attr == 'obj' and isinstance(nd.value, ast.Name) and nd.value.id == 'self':
+                    up = parent.get(nd)
+                    if isinstance(nd.ctx, ast.Store):
+                        found.add((cl.name, fn.name, 'self.obj = …'))
+                    elif isinstance(up, ast.Call) and isinstance(up.func, ast.Name) and up.func.id in ('getattr', 'hasattr'):
+                        pass          # recorded as the call
+                    elif isinstance(up, (ast.Call, ast.Attribute)):
+                        found.add((cl.name, fn.name, ast.unparse(up)))
+                    else:
+                        found.add((cl.name, fn.name, 'self.obj in ' + type(up).__name__))
+    extra = sorted(found - LIVE_READS)
+    res.hist('static_scan', 'live_reads', len(found))
+    for e in extra:
+        res.disagree('static-scan', dict(file=rel, what=f'{e[0]}.{e[1]} touches the live object in a way the model does not know: {e[2]}'))
+
+
+def start_reference_interpreters(W=8):
+    """one FRESH interpreter per variant of every family (nothing else generated in it); started at the very beginning of the
+    check so that they run while the proofs are being checked"""
+    import subprocess
+    env = dict(os.environ, PYTHONPATH=REPO + os.pathsep + os.path.join(VERIF, 'harness'), MPLBACKEND='Agg')
+    return {v: subprocess.Popen([sys.executable, os.path.join(VERIF, 'harness', 'c19_designs.py'), v, str(W)], env=env,
+                                stdout=subprocess.PIPE, stderr=subprocess.PIPE, text=True)
+            for fam, (variants, equal) in DS.FAMILIES.items() for v in sorted(variants)}
+
+
+def class_families(res, rng, tier, procs):
+    """the three-way comparison (real simulator vs Lean Verilog semantics on the emitted text) of all families goes through
+    ONE driver session, run in a background thread; the returned function joins it and evaluates the answers"""
+    import threading
+    import vsim
+    W = 8
+    vb, exp = vsim.VBatch(), {}
     for fam, (variants, equal) in DS.FAMILIES.items():
-        same_name_classes(res, rng, tier, fam, sorted(variants), equal)
+        same_name_classes(res, rng, tier, fam, sorted(variants), equal, procs, vb, exp, W)
+    box = {}
+
+    def work():
+        try:
+            box['jobs'] = list(vb.run())
+        except Exception as e:          # evaluated in the main thread
+            box['err'] = e
+    th = threading.Thread(target=work)
+    th.start()
+
+    def finish():
+        th.join()
+        if 'err' in box:
+            res.broken.append(('correspondence', 'samename-threeway', str(box['err'])[:300]))
+            return
+        for jb in box.get('jobs', []):
+            v = jb['label']
+            fam, tr, hist = exp[v]
+            vt = [t['r'] for t in jb['trace'][1:]]
+            known = [(i, x, y) for i, (x, y) in enumerate(zip(vt, tr)) if x != 'x']
+            res.hist('samename_threeway', 'compared' if known else 'all-x')
+            bad = [(i, x, y) for i, x, y in known if x != y]
+            if bad:
+                fail_or_known(res, f'text generated for circuit {v!r} ({fam}) does not behave like that circuit: cycle {bad[0][0]} verilog r={bad[0][1]} simulator r={bad[0][2]}',
+                              dict(via=fam, variant=v, request='behaviour', inputs=hist, verilog=vt, simulator=tr))
+    return finish
 
 
-def same_name_classes(res, rng, tier, fam, variants, equal):
+def same_name_classes(res, rng, tier, fam, variants, equal, procs, vb, exp, W):
     """family 'same-name classes': two or more circuits whose transpiled behavioural classes have the SAME __name__ (`Stage`, defined locally in different
     builder functions) but different method bodies, plus a control pair with identical source.  Oracle: whatever was generated
     before in this process, in whatever order, through one generator or fresh ones, each circuit's text equals the text
@@ -922,15 +1031,11 @@ def same_name_classes(res, rng, tier, fam, variants, equal):
     family 'shared identifier names': DIFFERENT behavioural classes (Saturate/Scale store constructor arguments `limit`, `step`,
     `total` as self.<name>; Window/Ramp/Mask use the same names as local variables, Hold as an attribute assigned only in clock(),
     Ramp as constant-initialised state) — same oracle: the text of each must not depend on which other classes were transpiled before."""
-    import subprocess, itertools, py4hw
-    import vsim
-    W = 8
-    env = dict(os.environ, PYTHONPATH=REPO + os.pathsep + os.path.join(VERIF, 'harness'), MPLBACKEND='Agg')
-    procs = {v: subprocess.Popen([sys.executable, os.path.join(VERIF, 'harness', 'c19_designs.py'), v, str(W)], env=env,
-                                 stdout=subprocess.PIPE, stderr=subprocess.PIPE, text=True) for v in variants}
+    import itertools, py4hw
     ref = {}
-    for v, p in procs.items():
-        out, err = p.communicate(timeout=300)
+    for v in variants:
+        p = procs[v]
+        out, err = p.communicate(timeout=600)
         if p.returncode != 0:
             raise ToolFailure(f'reference interpreter for {v} failed: {err[-300:]}')
         ref[v] = json.loads(out.strip().split('\n')[-1])
@@ -985,8 +1090,7 @@ def same_name_classes(res, rng, tier, fam, variants, equal):
                 sim.clk(n)
             hist_ops += [('poke', 'a', val), ('clk', n)]
     # the text describes its own circuit: real simulator vs Lean Verilog semantics on the text generated in THIS process
-    vb = vsim.VBatch()
-    exp = {}
+    # (queued; class_families runs the batch of all families in one driver session)
     for v, (text, d) in sorted(first_texts.items()):
         hist = [{'a': r2.bits(W)} for _ in range(8)]
         with L.quiet():
@@ -999,37 +1103,41 @@ def same_name_classes(res, rng, tier, fam, variants, equal):
             tr.append(d['r'].get())
         try:
             vb.add(text, 'STop', 'clk', hist, ['r'], label=v)
-            exp[v] = (tr, hist)
+            exp[v] = (fam, tr, hist)
         except L.vparse.VParseError:
             res.hist('samename_threeway', 'outside-parser-subset')
-    try:
-        for jb in vb.run():
-            v = jb['label']
-            tr, hist = exp[v]
-            vt = [t['r'] for t in jb['trace'][1:]]
-            known = [(i, x, y) for i, (x, y) in enumerate(zip(vt, tr)) if x != 'x']
-            res.hist('samename_threeway', 'compared' if known else 'all-x')
-            bad = [(i, x, y) for i, x, y in known if x != y]
-            if bad:
-                fail_or_known(res, f'text generated for circuit {v!r} ({fam}) does not behave like that circuit: cycle {bad[0][0]} verilog r={bad[0][1]} simulator r={bad[0][2]}',
-                              dict(via=fam, variant=v, request='behaviour', inputs=hist, verilog=vt, simulator=tr))
-    except ToolFailure as e:
-        res.broken.append(('correspondence', 'samename-threeway', str(e)[:300]))
 
 
 def main(res, tier, rng, replay):
+    import time
+    t_last = [time.time()]
+    res.cov['stage_wall_s'] = {}
+
+    def stage(name):
+        now = time.time()
+        res.cov['stage_wall_s'][name] = round(res.cov['stage_wall_s'].get(name, 0) + now - t_last[0], 1)
+        t_last[0] = now
+    procs = start_reference_interpreters()
     ok, metas, errors, changed = regenerate()
     for e in errors:
         res.broken.append(('translator', 'py2lean', e))
+    stage('regenerate')
     res.proof_stage('Py4hwV.Props.C19', OBLIGATIONS)
+    stage('proofs')
     kws = L.keywords()
     res.hist('keywords', 'count', len(kws))
     static_scan(res)
+    static_scan_live(res)
     # --- families of behavioural classes (same class name / shared identifier names), BEFORE anything else is transpiled here
-    class_families(res, rng, tier)
+    finish_threeway = class_families(res, rng, tier, procs)
+    stage('class families')
     # --- known-finding witnesses
     witness_platform_build(res)
     witness_live_attr(res)
+    stage('witnesses')
+    # --- generated behavioural classes: the transpiler vs the live object (Emit/Live.lean), text vs simulation history
+    behav_sink = BH.family(res, rng, tier, lambda what, rp: fail_or_known(res, what, rp))
+    stage('generated behavioural classes')
     # --- seeded scenarios
     n = 45 if tier == 'quick' else 700
     scs = []
@@ -1042,6 +1150,7 @@ def main(res, tier, rng, replay):
         except ToolFailure as e:
             res.broken.append(('correspondence', 'driver', str(e)[:300]))
         scs = []
+    scs.append(behav_sink)
     exh = exhaustive_sequences(res, rng, tier, kws)
     for i, sc in enumerate(exh):
         if not sc.build():
@@ -1057,6 +1166,8 @@ def main(res, tier, rng, replay):
         if len(scs) >= 60:
             flush()
     flush()
+    finish_threeway()
+    stage('exhaustive sequences')
     for i in range(n):
         kind = DS.KINDS[i % len(DS.KINDS)]
         sc = Scenario(res, rng.fork(('sc', i)), kind, f'{kind}-{i}', tier, kws)
@@ -1076,6 +1187,7 @@ def main(res, tier, rng, replay):
         if len(scs) >= 12:
             flush()
     flush()
+    stage('seeded designs')
     res.cov['designs_built'] = built
     res.cov['rule'] = ('per design (seeded: random primitive netlists, library blocks, nested containers with reused blocks, UART link, HIL codec, '
                        'UARTMsgGenerator, gated clock domain, transpiled classes; each built twice = twins): (1) every object from a clean state, '
@@ -1085,12 +1197,22 @@ def main(res, tier, rng, replay):
                        'created_structures, caller lists and the module-level cache after EVERY call vs the model; exhaustive sequences of '
                        'length <= 2/3 over a 10-op alphabet on a small hierarchy; (3) oracle on the real code: deep object-graph snapshot '
                        'before/after every call, simulation vs never-generated twin, Canon-equal text on repetition, from the twin, module text '
-                       'independent of the requesting ancestor.  distinct = distinct (design, position, request)')
+                       'independent of the requesting ancestor; (4) seeded GENERATED behavioural classes (source text built from attribute '
+                       'categories: constructor constants, constructor arguments read-only / re-assigned, attributes created by clock()/propagate() '
+                       'read-before-written (guarded) or written-before-read, class-level constants, class-level defaults re-assigned per instance, '
+                       'locals; clock and propagate) + the 13 hand-written family classes: text before simulation, after every step (cycles, pokes, '
+                       'pokes only), kept/fresh generator, module and hierarchy, for a same-history twin and a different-history twin, vs the '
+                       'text of a never-simulated circuit with the same constructor-argument values; every ReplaceWiresAndVariables decision and '
+                       'the ports/variables/arguments of the REAL transpiler vs Emit.transpile / Emit.extractInit on the same live values.  '
+                       'distinct = distinct (design, position, request)')
     res.assumptions += [
         'absence of side effects of generation on the live object graph is OBSERVED (snapshots, twin simulation), not proved: the model is pure by construction',
         'the text of a primitive body (provideBody / transpiler) and of each Inline* one-liner is an opaque function of the object in the model; '
         'the harness checks on the real code that it is the same text in every context',
-        'simulation steps change nothing the generator reads (Op.sim is the identity in the model) — false for the listed finding C19-live-arg-attr',
+        'simulation steps change nothing the generator reads (Op.sim is the identity in the model) — false for the listed finding C19-live-arg-attr; '
+        'for transpiled blocks this is now a theorem (sim_history_indep) under NoArgStore + SimFrame (simulation assigns only the attributes the '
+        'transpiled method assigns: an assumption about Python execution), and the reads of the live object the model knows are checked against '
+        'the transpiler source (static_scan_live)',
         'Canon is evaluated by its Python transcription on real text (instance suffixes = hex(id(obj)) of the exported objects); the Lean '
         'Emit.canonOuts / V.canon are executable through Drv/C19.lean',
         'user-supplied ast_tree: not modelled (the path raises AssertionError/AttributeError on the unchanged tree: unusable)',
